@@ -57,6 +57,8 @@ func (ex *Exec) getFS() *modelFS {
 	return ex.fs
 }
 
+var dirEntryType = types.NewNamed(types.NewTypeName(token.NoPos, nil, "verifDirEntry", nil), types.NewStruct(nil, nil), nil)
+
 var fileInfoType = types.NewNamed(types.NewTypeName(token.NoPos, nil, "verifFileInfo", nil), types.NewStruct(nil, nil), nil)
 
 type mfileInfo struct {
@@ -616,6 +618,62 @@ func registerOSModels() {
 			return TupleVal{ex.strConst(rel), nilErr()}
 		}
 		return TupleVal{ex.strConst(rp), nilErr()}
+	}
+	intrinsics["os.Readlink"] = func(ex *Exec, fn *ssa.Function, a []Value) Value {
+		fs := ex.getFS()
+		name := ex.concreteString(a[0], "file name")
+		rp, ok := fs.resolve(name, false, 0)
+		n := fs.nodes[rp]
+		if !ok || n == nil {
+			return TupleVal{&StrVal{}, ex.osErr("notexist", "readlink", name)}
+		}
+		if n.kind != 2 {
+			return TupleVal{&StrVal{}, ex.osErr("invalid", "readlink", name)}
+		}
+		return TupleVal{ex.strConst(n.target), nilErr()}
+	}
+	intrinsics["os.ReadDir"] = func(ex *Exec, fn *ssa.Function, a []Value) Value {
+		fs := ex.getFS()
+		name := ex.concreteString(a[0], "dir name")
+		rp, ok := fs.resolve(name, true, 0)
+		n := fs.nodes[rp]
+		if !ok || n == nil || n.kind != 1 {
+			return TupleVal{&SliceVal{}, ex.osErr("notexist", "readdir", name)}
+		}
+		var names []string
+		for p := range fs.nodes {
+			if path.Dir(p) == rp && p != rp {
+				names = append(names, path.Base(p))
+			}
+		}
+		sort.Strings(names)
+		et := fn.Signature.Results().At(0).Type().Underlying().(*types.Slice).Elem()
+		arr := &ArrObj{e: make([]Value, len(names)), et: et, id: ex.nextID()}
+		for i, nm := range names {
+			c := fs.nodes[path.Join(rp, nm)]
+			sz := 0
+			if c.kind == 0 {
+				sz = len(c.file.data)
+			}
+			arr.e[i] = &IfaceVal{t: dirEntryType, v: &OpaqueVal{kind: "direntry", x: &mfileInfo{name: nm, size: sz, kind: c.kind}}}
+		}
+		return TupleVal{&SliceVal{arr: arr, len: len(names), cap: len(names)}, nilErr()}
+	}
+	nativeTypes[dirEntryType] = map[string]nativeFn{
+		"Name":  func(ex *Exec, a []Value) Value { return ex.strConst(a[0].(*OpaqueVal).x.(*mfileInfo).name) },
+		"IsDir": func(ex *Exec, a []Value) Value { return ex.tt.Bool(a[0].(*OpaqueVal).x.(*mfileInfo).kind == 1) },
+		"Type": func(ex *Exec, a []Value) Value {
+			switch a[0].(*OpaqueVal).x.(*mfileInfo).kind {
+			case 1:
+				return ex.tt.BV(1<<31, 32)
+			case 2:
+				return ex.tt.BV(1<<27, 32)
+			}
+			return ex.tt.BV(0, 32)
+		},
+		"Info": func(ex *Exec, a []Value) Value {
+			return TupleVal{&IfaceVal{t: fileInfoType, v: a[0]}, nilErr()}
+		},
 	}
 	intrinsics["os.IsNotExist"] = func(ex *Exec, fn *ssa.Function, a []Value) Value {
 		return ex.tt.Bool(ex.errorsIs(a[0].(*IfaceVal), ex.pkgGlobalValue("io/fs", "ErrNotExist").(*IfaceVal), 0))
